@@ -1,9 +1,10 @@
 from props import Prop, Stream, reg
 
 reg(Prop('C16', [
-    Stream('c16.rej', 3000, 200000, 'spec'),
+    Stream('c16.rej', 3000, 200000, 'spec',
+           exhaustive='address sizes 0,9,10,16,31,32,33,64,128,255 x versions 2-4 x range/location tables'),
     Stream('c16.nopanic', 1500, 100000, 'oracle',
-           exhaustive='StartLength sums at the u64 / i64 boundary and BaseAddress entries x address sizes 0,1,2,3,4,8,9,16,31,32,33,255 x versions 2,4,5'),
+           exhaustive='(regression of the fixed panics) StartLength sums at the u64 / i64 boundary and BaseAddress entries x address sizes 0,1,2,3,4,8,9,16,31,32,33,255 x versions 2,4,5'),
     Stream('c16.rng', 4000, 300000, 'model',
            exhaustive='single-entry and base+entry range lists over every kind x 7 boundary values squared (0,1,0x20,max-2,max-1(all-ones),2^(8s),2^64-1) x versions 2-5 x address sizes 1,2,4,8 x low_pc absent/0/non-zero'),
     Stream('c16.loc', 4000, 300000, 'model',
@@ -12,13 +13,13 @@ reg(Prop('C16', [
            exhaustive='design item F8 and its four relatives x versions 2-5 x address sizes 1,2,4,8'),
 ], design_ref='§5 C16',
     clauses=[
-        'rejects_v4 / rejects_unit_rng / rejects_unit_loc: the first empty range, OffsetPair without base, StartEnd/StartLength with base or DefaultLocation of a DWARF 2-4 list yields exactly InvalidRange / MissingBaseAddress / UnexpectedBaseAddress (prefix writable); rejected_never_bytes: Ok implies no entry was in a rejected class',
-        'ambiguity_zero: on Ok the writer emitted exactly the pair encoding of the list and no emitted non-terminator pair is (0,0); ambiguity_marker: no non-base pair begins with the all-ones marker UNLESS the list has an entry beginning at the marker (marker_clash) - refuted without that hypothesis (ambiguity_marker_refuted_*, design item F8)',
+        'rejects_v4 / rejects_unit_rng / rejects_unit_loc: the first empty range, OffsetPair without base, StartEnd/StartLength with base, entry beginning at the all-ones marker, StartLength sum that does not fit, or DefaultLocation of a DWARF 2-4 list yields exactly InvalidRange / MissingBaseAddress / UnexpectedBaseAddress / ValueTooLarge (prefix writable); rejects_bad_address_size: address size outside 1..8 -> UnsupportedWordSize; rejected_never_bytes: Ok implies no entry was in a rejected class',
+        'ambiguity (full): on Ok the writer emitted exactly the pair encoding of the list, no emitted non-terminator pair is (0,0) and no non-base pair begins with the all-ones marker',
         'write_read_v5: through Unit::write, every added range/location list decodes at offsets.get(id) to exactly its entries and resolves to the meaning of the written list for every base address',
-        'write_read_v4: through Unit::write, every added list outside marker_clash decodes at its offset to pairs that resolve, relative to the base address the reader derives from the root DIE, to the meaning of the written list (write_read_v4_refuted_F8 for the class)',
-        'dedup_rng / dedup_loc / one_copy_v4 / one_copy_v5: equal lists <-> equal ids, table = the distinct lists in first-occurrence order, one emitted copy per table element, offsets = running positions',
+        'write_read_v4 (full): through Unit::write, every added list decodes at its offset to pairs that resolve, relative to the base address the reader derives from the root DIE, to the meaning of the written list',
+        'dedup_rng / dedup_loc / one_copy_v4 / one_copy_v5 / added_lists_read_back_v4/_v5: equal lists <-> equal ids, table = the distinct lists in first-occurrence order, one emitted copy per table element, offsets = running positions; add..add; write; decode end to end',
         'base_from_root(_iff): have_base_address = root has a DW_AT_low_pc other than Address::Constant(0); flag false implies the reader base address is 0',
-        'no_panic / no_panic_release: the list part of Unit::write never panics in release builds; in debug builds under address size 1..8 and non-overflowing StartLength sums (no_panic_refuted_startlength, no_panic_refuted_marker otherwise)',
+        'no_panic (full): the list part of Unit::write never panics for any input of the Rust types (the repaired code has no unchecked arithmetic; the model has no build-mode parameter)',
     ],
     explored_only=[
         'the DIE side of the round trip (DW_AT_ranges / DW_AT_location forms and the offsets written into .debug_info) is exercised only by the harness read-back through read::Dwarf (C11 models it)',
@@ -26,7 +27,7 @@ reg(Prop('C16', [
         'Address::Symbol (relocating writers): the model is EndianVec, where a symbolic address is Err(InvalidAddress); expressions other than Expression::raw',
     ],
     assumptions=['usize = u64', 'writer = EndianVec (Writer::write_address default)'],
-    level_text='Proof (Coq) over a function-by-function model of write_ranges / write_rnglists / write_loc / write_loclists / table add / the list part of Unit::write: rejects (both directions), write->decode->resolve round trips for DWARF 5 and DWARF 2-4, de-duplication, base-address consistency between writer flag and reader base, panic freedom. Two clauses are refuted on the faithful model and on gimli itself (known findings): entries beginning at the all-ones marker are accepted by the pre-v5 writers and read back as base selections; debug builds panic on overflowing StartLength sums and on BaseAddress entries with an address size outside 1..8. The theorems carry exactly those extra hypotheses. The model is tied to gimli by ~46k cases per quick run (section bytes and offsets compared sharply, both build modes) and gimli\'s reader is run on gimli\'s output against the Coq meaning of the written list.',
+    level_text='Proof (Coq) over a function-by-function model of write_ranges / write_rnglists / write_loc / write_loclists / table add / the list part of Unit::write (as repaired by /repo commits 85ffc95 and e67c31b): rejects (both directions, including marker clashes, overflowing StartLength sums and bad address sizes), ambiguity, write->decode->resolve round trips for DWARF 5 and DWARF 2-4 without side conditions, de-duplication, base-address consistency between writer flag and reader base, panic freedom for all inputs. The model is tied to gimli by ~40k cases per quick run (section bytes and offsets compared sharply, both build modes) and gimli\'s reader is run on gimli\'s output against the Coq meaning of the written list.',
     level_note='Trusted: Coq kernel; the hand-written model (tied by differential execution only); ListWrSpec (meaning of a list, tombstone/empty-range dropping as documented by gimli\'s reader); OCaml/Rust/Python glue.',
     technique='Coq proof over a Gallina model of write/range.rs + write/loc.rs + differential correspondence with gimli (debug+release) and read-back through gimli\'s reader',
 ))
